@@ -136,7 +136,10 @@ void ThreePointsNumericalDerivative::updateDerivatives(const ParameterList& para
 
     if (computeCrossD2_)
     {
-      string lastVar1, lastVar2;
+      // The last probed variable is still displaced: come back to the point first,
+      // the cross derivatives are computed around it.
+      if (functionChanged)
+        function_->setParameters(parameters.createSubList(lastVar));
       for (unsigned int i = 0; i < variables_.size(); i++)
       {
         string var1 = variables_[i];
@@ -156,14 +159,8 @@ void ThreePointsNumericalDerivative::updateDerivatives(const ParameterList& para
           vector<string> vars(2);
           vars[0] = var1;
           vars[1] = var2;
-          if (i > 0 && j > 0)
-          {
-            if (lastVar1 != var1 && lastVar1 != var2)
-              vars.push_back(lastVar1);
-            if (lastVar2 != var1 && lastVar2 != var2)
-              vars.push_back(lastVar2);
-          }
-          p = parameters.createSubList(vars);
+          const ParameterList point = parameters.createSubList(vars);
+          p = point;
 
           double value1 = function_->getParameterValue(var1);
           double value2 = function_->getParameterValue(var2);
@@ -175,11 +172,7 @@ void ThreePointsNumericalDerivative::updateDerivatives(const ParameterList& para
           {
             p[0].setValue(value1 - h1);
             p[1].setValue(value2 - h2);
-            function_->setParameters(p); // also reset previous parameter...
-            vector<size_t> tmp(2);
-            tmp[0] = 0;
-            tmp[1] = 1;
-            p = p.createSubList(tmp); // removed the previous parameters.
+            function_->setParameters(p);
             f11_ = function_->getValue();
 
             p[1].setValue(value2 + h2);
@@ -198,11 +191,17 @@ void ThreePointsNumericalDerivative::updateDerivatives(const ParameterList& para
           }
           catch (ConstraintException& ce)
           {
+            // Leave the function at the point, with its analytical derivatives, before giving up:
+            if (function1_)
+              function1_->enableFirstOrderDerivatives(computeD1_);
+            if (function2_)
+              function2_->enableSecondOrderDerivatives(computeD2_);
+            function_->setParameters(point);
             throw Exception("ThreePointsNumericalDerivative::setParameters. Could not compute cross derivatives at limit.");
           }
 
-          lastVar1 = var1;
-          lastVar2 = var2;
+          // Come back to the point:
+          function_->setParameters(point);
         }
       }
     }
